@@ -433,7 +433,8 @@ def s_sum(xs, start=0):
 
 def s_enumerate(x, start=0):
     if isinstance(x, SList):
-        return _b.enumerate(iter(x), start)
+        # a sequence of symbolic length: the pairs (start + k, x[k]) as a symbolic list
+        return SList(x.length, lambda k: (num(start) + num(k), x.elem(k)), name="enumerate")
     return _b.enumerate(x, start)
 
 
